@@ -107,9 +107,11 @@ _LINK = re.compile(r'^=HYPERLINK\("#(?P<sheet>[^"]*)\.a(?P<r1>\d+):z(?P<r2>\d+)"
 def parse_link(value):
     """(sheet, row, inner) for a HYPERLINK formula, None for anything else.
     inner: list of parts (plain text and symbolic renderings) of the linked value, surrounding quotes removed"""
+    if not isinstance(value, str):
+        return None
     parts = getattr(value, "parts", None)
     if parts is None:
-        if not (isinstance(value, str) and value.startswith("=HYPERLINK(")):
+        if not value.startswith("=HYPERLINK("):
             return None
         parts = [value]
     if not parts or type(parts[0]) is not str or not parts[0].startswith("=HYPERLINK("):  # pylint: disable=unidiomatic-typecheck
